@@ -14,6 +14,8 @@
 #include <dlfcn.h>
 #include <cxxabi.h>
 #include <typeinfo>
+#include <elf.h>
+#include <sys/mman.h>
 
 namespace c13
 {
@@ -131,25 +133,114 @@ static inline std::string demangle(const char* n)
    free(d);
    return r;
 }
-// first frame of the current stack that is a SoPlex / zstr function (dynamic symbols; binaries are linked -rdynamic)
+// ---------------------------------------------------------------- own symbolizer over the binary's .symtab
+// (dladdr only knows exported symbols and would mis-attribute static reader helpers; the sanitizer's libbacktrace gives no file
+// paths for code of the explicit-instantiation object at -g1, so the driver's crash key would lose those frames)
+struct SymTab
+{
+   struct Sym
+   {
+      uint64_t a, sz;
+      const char* nm;
+   };
+   std::vector<Sym> v;
+   uint64_t base = 0;
+   bool loaded = false;
+   static void anchor() {}
+   void load()
+   {
+      if(loaded) return;
+      loaded = true;
+      int fd = open("/proc/self/exe", O_RDONLY);
+      if(fd < 0) return;
+      struct stat st;
+      if(fstat(fd, &st) != 0)
+      {
+         close(fd);
+         return;
+      }
+      const char* f = (const char*)mmap(nullptr, (size_t)st.st_size, PROT_READ, MAP_PRIVATE, fd, 0);
+      close(fd);
+      if(f == (const char*)MAP_FAILED) return;
+      const Elf64_Ehdr* eh = (const Elf64_Ehdr*)f;
+      if(memcmp(eh->e_ident, ELFMAG, SELFMAG) != 0 || eh->e_ident[EI_CLASS] != ELFCLASS64) return;
+      const Elf64_Shdr* sh = (const Elf64_Shdr*)(f + eh->e_shoff);
+      for(int i = 0; i < eh->e_shnum; i++)
+      {
+         if(sh[i].sh_type != SHT_SYMTAB) continue;
+         const Elf64_Sym* sy = (const Elf64_Sym*)(f + sh[i].sh_offset);
+         size_t n = sh[i].sh_size / sizeof(Elf64_Sym);
+         const char* str = f + sh[sh[i].sh_link].sh_offset;
+         for(size_t k = 0; k < n; k++)
+            if(ELF64_ST_TYPE(sy[k].st_info) == STT_FUNC && sy[k].st_value != 0) v.push_back(Sym{sy[k].st_value, sy[k].st_size, str + sy[k].st_name});
+      }
+      std::sort(v.begin(), v.end(), [](const Sym & x, const Sym & y)
+      {
+         return x.a < y.a;
+      });
+      if(eh->e_type == ET_DYN)
+      {
+         Dl_info di;
+         if(dladdr((void*)&SymTab::anchor, &di)) base = (uint64_t)di.dli_fbase;
+      }
+      // the mapping stays (names point into it)
+   }
+   std::string find(const void* pc)
+   {
+      load();
+      uint64_t off = (uint64_t)pc - base;
+      size_t lo = 0, hi = v.size();
+      while(lo < hi)
+      {
+         size_t mid = (lo + hi) / 2;
+         if(v[mid].a <= off) lo = mid + 1;
+         else hi = mid;
+      }
+      if(lo == 0) return "";
+      const Sym& s = v[lo - 1];
+      if(off >= s.a + std::max<uint64_t>(s.sz, 1)) return "";
+      std::string raw = s.nm;
+      size_t dot = raw.find('.');                 // gcc clones: _Zfoo.cold, .part.0, .constprop.0
+      if(dot != std::string::npos && raw.compare(0, 2, "_Z") == 0) raw = raw.substr(0, dot);
+      return demangle(raw.c_str());
+   }
+};
+static SymTab g_symtab;
+
+// SoPlex / zstr functions on the current stack, innermost first, cleaned ("SPxLPBase::readLPF"); at most `want` distinct ones
+static inline std::vector<std::pair<void*, std::string>> soplexFrames(int want)
+{
+   std::vector<std::pair<void*, std::string>> out;
+   void* bt[96];
+   int n = backtrace(bt, 96);
+   for(int i = 0; i < n && (int)out.size() < want; i++)
+   {
+      std::string d = g_symtab.find((const char*)bt[i] - 1);
+      if(d.empty()) continue;
+      if(d.find("c13::") != std::string::npos) continue;
+      if(d.find("soplex::") == std::string::npos && d.find("zstr::") == std::string::npos && d.find("strict_fstream") == std::string::npos) continue;
+      std::string c = cleanFn(d);
+      bool dup = false;
+      for(auto& o : out) if(o.second == c) dup = true;
+      if(!dup && !c.empty()) out.emplace_back(bt[i], c);
+   }
+   return out;
+}
 static inline std::string topSoplexFrame()
 {
-   void* bt[64];
-   int n = backtrace(bt, 64);
-   for(int i = 0; i < n; i++)
+   auto f = soplexFrames(1);
+   return f.empty() ? "unknown" : f[0].second;
+}
+// printed ahead of a sanitizer report, in the report's own frame syntax, so that the driver's crash key names the call site
+static inline void printSyntheticFrames()
+{
+   auto f = soplexFrames(2);
+   char buf[512];
+   for(size_t i = 0; i < f.size(); i++)
    {
-      Dl_info di;
-      if(dladdr(bt[i], &di) && di.dli_sname)
-      {
-         std::string d = demangle(di.dli_sname);
-         if(d.find("soplex::") != std::string::npos || d.find("zstr::") != std::string::npos || d.find("strict_fstream") != std::string::npos)
-         {
-            if(d.find("c13::") != std::string::npos) continue;
-            return cleanFn(d);
-         }
-      }
+      int n = snprintf(buf, sizeof buf, "    #%zu 0x%llx in %s /repo/src/soplex/[c13-symtab]\n", i, (unsigned long long)(uintptr_t)f[i].first, f[i].second.c_str());
+      if(n > 0) (void)!write(2, buf, (size_t)std::min<int>(n, (int)sizeof buf - 1));
    }
-   return "unknown";
 }
 
 struct CapBuf : public std::streambuf
@@ -314,7 +405,8 @@ template <class SV> static void collect(const SV& v, int major, bool rowwise, in
 }
 
 // row-wise and column-wise storage must mirror each other (through the public accessors)
-static inline void mirrorCheck(SoPlex& sp, int entry, const char* when, bool rational)
+// returns false if the LP is not well-formed (a violation has been reported)
+static inline bool mirrorCheck(SoPlex& sp, int entry, const char* when, bool rational)
 {
    std::string e = entryName[entry];
    int m = rational ? sp.numRowsRational() : sp.numRows(), n = rational ? sp.numColsRational() : sp.numCols();
@@ -335,13 +427,13 @@ static inline void mirrorCheck(SoPlex& sp, int entry, const char* when, bool rat
    if(bad)
    {
       H.viol("C13:" + e + ":mirror:index-out-of-range:" + sfx, "a row/column vector holds an index outside the LP dimensions " + std::to_string(m) + "x" + std::to_string(n));
-      return;
+      return false;
    }
    int nnz = rational ? sp.numNonzerosRational() : sp.numNonzeros();
    if((int)R.size() != (int)Cc.size() || nnz != (int)R.size())
    {
       H.viol("C13:" + e + ":mirror:nnz:" + sfx, "row-wise nnz " + std::to_string(R.size()) + ", column-wise nnz " + std::to_string(Cc.size()) + ", numNonzeros() " + std::to_string(nnz));
-      return;
+      return false;
    }
    std::sort(R.begin(), R.end());
    std::sort(Cc.begin(), Cc.end());
@@ -352,11 +444,19 @@ static inline void mirrorCheck(SoPlex& sp, int entry, const char* when, bool rat
       {
          H.viol("C13:" + e + ":mirror:coefficient:" + sfx, "entry (" + std::to_string(std::get<0>(R[k])) + "," + std::to_string(std::get<1>(R[k])) + ") is " + std::get<2>(R[k]) +
                 " row-wise but (" + std::to_string(std::get<0>(Cc[k])) + "," + std::to_string(std::get<1>(Cc[k])) + ")=" + std::get<2>(Cc[k]) + " column-wise");
-         return;
+         return false;
       }
       if(k > 0 && std::get<0>(R[k]) == std::get<0>(R[k - 1]) && std::get<1>(R[k]) == std::get<1>(R[k - 1])) dup++;
    }
-   if(dup) cnt("observed.duplicate_matrix_entries");
+   if(dup)
+   {
+      cnt("observed.duplicate_matrix_entries");
+      // SVectorBase::isConsistent() (ENABLE_CONSISTENCY_CHECKS) itself calls a repeated index with a nonzero value inconsistent
+      H.viol("C13:" + e + ":inconsistent-svector:duplicate-index:" + sfx, std::to_string(dup) + " matrix position(s) are stored twice in the same row/column vector (SVectorBase::isConsistent "
+             "would reject this); presolve and factorization assume unique indices");
+      return false;
+   }
+   return true;
 }
 
 static inline void sidesCheck(SoPlex& sp, int entry)
@@ -371,7 +471,8 @@ static inline void sidesCheck(SoPlex& sp, int entry)
          cnt("observed.nan_side");
          continue;
       }
-      if(l > r)
+      const double inf = soplex::infinity;
+      if(std::max(-inf, std::min(inf, l)) > std::max(-inf, std::min(inf, r)))      // +-1e100 and beyond all mean "infinite"
       {
          H.viol("C13:" + e + ":lhs>rhs", "row " + std::to_string(i) + " has lhs " + ds(l) + " > rhs " + ds(r) + " after a successful read");
          break;
@@ -523,8 +624,8 @@ static inline void runCase(const CaseIn& in, CaseOut& out)
       else if(out.ok)
       {
          cnt("entry." + e + ".success");
-         mirrorCheck(sp, entry, "after-success", false);
-         if(rational && sp.intParam(SoPlex::SYNCMODE) == SoPlex::SYNCMODE_AUTO) mirrorCheck(sp, entry, "after-success", true);
+         bool wellFormed = mirrorCheck(sp, entry, "after-success", false);
+         if(rational && sp.intParam(SoPlex::SYNCMODE) == SoPlex::SYNCMODE_AUTO) wellFormed = mirrorCheck(sp, entry, "after-success", true) && wellFormed;
          sidesCheck(sp, entry);
          if(names)
          {
@@ -537,7 +638,8 @@ static inline void runCase(const CaseIn& in, CaseOut& out)
                   break;
                }
          }
-         boundedOptimize(sp, entry, "read");
+         if(wellFormed) boundedOptimize(sp, entry, "read");      // an ill-formed LP is already reported; do not pile downstream crashes on it
+         else cnt("post.optimize_skipped_illformed");
          reuseCheck(sp, entry, "after-success", true);
       }
       else
@@ -661,4 +763,13 @@ static inline void runCase(const CaseIn& in, CaseOut& out)
 }
 
 } // namespace c13
+
+extern "C" void __asan_on_error()
+{
+   c13::printSyntheticFrames();
+}
+extern "C" void __ubsan_on_report()
+{
+   c13::printSyntheticFrames();
+}
 #include "c13_seeds.hpp"
